@@ -112,3 +112,40 @@ pub fn extract_feature_sets(
     let maps = dump_maps(&fe);
     (out, maps)
 }
+
+// ---- trained-model hooks (C14 / C15 / C16) ----
+
+/// Serialises `model` like `Model::write_model`, but with every weight `w_i` replaced by
+/// `f(i, w_i)`; everything else (configuration, weight indices, feature sets) is unchanged.
+/// Lets external tooling explore raw models that training would rarely produce.
+pub fn write_model_with_weights(
+    model: &mut super::Model,
+    f: &dyn Fn(usize, f64) -> f64,
+) -> Result<Vec<u8>, ()> {
+    let config = crate::common::bincode_config();
+    let mut out = bincode::encode_to_vec(&model.data.config, config).map_err(|_| ())?;
+    let weights: Vec<f64> = model
+        .data
+        .raw_model
+        .weights()
+        .iter()
+        .enumerate()
+        .map(|(i, &w)| f(i, w))
+        .collect();
+    let unigram: Vec<Option<std::num::NonZeroU32>> =
+        model.data.raw_model.unigram_weight_indices().to_vec();
+    let bigram: Vec<Vec<(u32, u32)>> = model
+        .data
+        .raw_model
+        .bigram_weight_indices()
+        .iter()
+        .map(|m| m.iter().map(|(&k, &v)| (k, v)).collect())
+        .collect();
+    out.extend(bincode::encode_to_vec(&weights, config).map_err(|_| ())?);
+    out.extend(bincode::encode_to_vec(&unigram, config).map_err(|_| ())?);
+    out.extend(bincode::encode_to_vec(&bigram, config).map_err(|_| ())?);
+    out.extend(
+        bincode::encode_to_vec(&*model.data.raw_model.feature_provider(), config).map_err(|_| ())?,
+    );
+    Ok(out)
+}
